@@ -18,7 +18,7 @@ EXHAUSTIVE = True
 RULE = ('the FULL Cartesian product of the documented emissions options (2x2x2x2x3x3x3x3x4x2x2x2 '
         '= 41 472 configurations; exhaustive over that space) is loaded into the real Config '
         'and compute_emissions is run on generated performance-model data / trajectories '
-        '(quick: 1 data set, thorough: 6); outcome classes: balanced inventory by the '
+        '(one data set per shard: quick 16, thorough 96); outcome classes: balanced inventory by the '
         'independent re-summation oracle of C01 + switched-off species absent or zero in '
         'trajectory and LTO parts | refusal (NotImplementedError/ValueError/RuntimeError whose '
         'message names the configured unsupported method) | internal error (anything else) = '
@@ -59,14 +59,19 @@ def run_shard(spec, rec):
 
     hdir = Path(tempfile.mkdtemp(prefix='c11-'))
     try:
-        rng = random.Random(f"c11-{spec['seed']}")
-        pm = emis.gen_pm(rng, hostile=spec['dataset'] > 0)
-        if spec['dataset'] % 3 == 2:
+        # every shard runs its slice of the product on its own data set (16 per product pass)
+        rng = random.Random(f"c11-{spec['seed']}-{spec['part']}")
+        pm = emis.gen_pm(rng, hostile=(spec['dataset'] + spec['part']) % 2 == 1)
+        if (spec['dataset'] + spec['part']) % 5 == 2:
             pm.apu = None
+            pm.desc['apu'] = 'none'
+        for kk in ('flows', 'nvpm_data', 'apu'):
+            rec.cls(f'data:{kk}={pm.desc[kk]}')
         fuel, _ = emis.gen_fuel(random.Random(1))          # jet-A
         emis.run_config({k: v[0] for k, v in emis.OPTIONS.items()}, hdir)
         traj, tdesc = emis.gen_traj(rng, pm)
-        if spec['part'] == 0:
+        rec.cls(f"data:split={tdesc['split']}")
+        if spec['part'] < 2:
             rec.sample({'pm': pm.desc, 'trajectory': tdesc})
         sink = io.StringIO()
         for i, cfg in enumerate(emis.option_product()):
